@@ -82,7 +82,9 @@ def obligations(pid, tier, only=None, cfgs=None):
     return obls
 
 
-def run(pid, level, a, note):
+def run(pid, level, a, note, extra=None, trusted=None, assumptions=None):
+    """extra: optional callback(r) -> dict run before the verdict (further obligations of the same property decided
+    by another engine); its integer entries 'obligations'/'discharged'/'evaluations' are added to the totals"""
     if a.replay:
         return replay(pid, a.replay)
     r = report.Run(pid, a.tier, level)
@@ -193,7 +195,17 @@ def run(pid, level, a, note):
         'headers_sha256': build.headers_hash(),
         'known_finding_obligations': len(r.known_hits),
     }
-    return r.finish(cov, ASSUMPTIONS)
+    if trusted:
+        cov['trusted_base'] = TRUSTED + list(trusted)
+    if extra is not None:
+        ex = extra(r) or {}
+        for k in ('obligations', 'discharged', 'evaluations', 'distinct_nontrivial'):
+            if k in ex:
+                cov[k] += ex.pop(k)
+        if 'samples' in ex:
+            cov['samples'] = cov['samples'] + ex.pop('samples')
+        cov.update(ex)
+    return r.finish(cov, ASSUMPTIONS + list(assumptions or []))
 
 
 def replay(pid, path):
